@@ -116,6 +116,9 @@ def run(tier, seed, t0):
     klens = list(range(1, 71)) if tier == "quick" else list(range(1, 301))
     for klen in klens:
         jobs.append(lambda klen=klen: ob_kdf(64, klen))
+    # counter boundaries: 255 / 256 / 257 blocks (one-byte counter), and in the thorough tier 65536 blocks (two-byte counter)
+    for klen in ([8160, 8161, 8193] if tier == "quick" else [8160, 8161, 8193, 16385, 65537, 2097121]):
+        jobs.append(lambda klen=klen: ob_kdf(64, klen))
     for zl in (0, 1):
         for klen in (1, 32, 33):
             jobs.append(lambda zl=zl, klen=klen: ob_kdf(zl, klen))
